@@ -44,6 +44,7 @@ deriving Repr
 /-- result kinds of one API call -/
 inductive Res where
   | ok | eof | finalised | hang | panic | ioerr
+  | rejected      -- `Push` of a value of another type: "morass: type mismatch" (checked first)
 deriving DecidableEq, Repr
 
 structure State where
@@ -145,6 +146,7 @@ def pull (s : State) : State × Res × Option Elem :=
 /-- Operations of a usage history. -/
 inductive Op where
   | push (e : Elem) | finalise | pull | clear
+  | reject      -- `Push` of a value whose type is not the sorter's element type
 deriving DecidableEq, Repr
 
 /-- What the caller sees after one call. -/
@@ -160,6 +162,8 @@ def step (s : State) : Op → State × Out
   | .finalise => let (s', r) := finalise s; (s', ⟨r, none, s'.len, s'.pos⟩)
   | .pull => let (s', r, v) := pull s; (s', ⟨r, v, s'.len, s'.pos⟩)
   | .clear => let s' := clear s; (s', ⟨.ok, none, s'.len, s'.pos⟩)
+  -- the type check is the first thing `Push` does: the error is returned, nothing changes
+  | .reject => (s, ⟨.rejected, none, s.len, s.pos⟩)
 
 /-- Run a history; a `hang` or `panic` ends it (the caller never gets control back). -/
 def run (s : State) : List Op → State × List Out
